@@ -98,16 +98,60 @@ def chain(ctx):
   fc = m.func('tearfree.praxis_shim', 'sharded_chain.update_fn')
   fin = m.func('tearfree.praxis_shim', 'sharded_chain.init_fn')
   ctx.analysed(fc, fin)
-  import ast
-  src = ast.unparse(fc.node)
-  ok = 'for s, fn in zip(state, args)' in src.replace('(s, fn)', 's, fn') and 'updates, new_s = fn.update(updates, s, params)' in src.replace('(updates, new_s)', 'updates, new_s')
-  ok = ok and 'new_state.append(new_s)' in src and 'return (updates, tuple(new_state))' in src.replace('return updates, tuple(new_state)', 'return (updates, tuple(new_state))')
+  ARGS = sym('cfg', 'sharded_chain', 'args')
+  ev = evaluator(m)
+  r = ev.run(fc)
+  P = lambda nm: sym('param', fc.short, nm)
+
+  def is_member_update(call):
+    """elem(args).update(<running updates>, elem(state), params)"""
+    if not (call.op == 'call' and method_name(call) == 'update' and len(call.args[1]) == 3):
+      return None
+    recv = call.args[0].args[0]
+    u, st, pr = call.args[1]
+    if recv.op == 'elem' and recv.args[0] is ARGS and st.op == 'elem' and st.args[0] is P('state') and pr is P('params'):
+      return u
+    return None
+  ok = r.op == 'tuple' and len(r.args) == 2
+  why = ''
+  if ok:
+    upd, sts = r.args
+    ok = upd.op == 'loop' and upd.args[2] is P('updates') and upd.args[3].op == 'sub' and is_const(upd.args[3].args[1], 0)
+    why = 'returned updates are not the value threaded through every member'
+    if ok:
+      running = is_member_update(upd.args[3].args[0])
+      ok = running is not None and running.op == 'phi' and running.args[0] == upd.args[0] and running.args[2] is P('updates')
+      why = 'each member must receive the updates produced by the previous member, its own state and params'
+    if ok:
+      lid = upd.args[0]
+      ok = sts.op in ('tuple', 'list') and len(sts.args) == 1 and sts.args[0].op == 'star'
+      why = 'new chain state must hold exactly one entry per member'
+      if ok:
+        e, dom = sts.args[0].args
+        it = dom.args[1] if dom.op == 'loopdom' else None
+        okd = dom.op == 'loopdom' and dom.args[0] == lid and not dom.args[2] and it.op == 'call' and it.args[0].op == 'builtin' and \
+            it.args[0].args[0] == 'zip' and set(it.args[1]) == {P('state'), ARGS} and len(it.args[1]) == 2
+        src_state = e.args[1][0] if e.op == 'tmap' and e.args[1] else e
+        oks = src_state.op == 'sub' and is_const(src_state.args[1], 1) and is_member_update(src_state.args[0]) is not None and \
+            src_state.args[0] is upd.args[3].args[0]
+        if e.op == 'tmap':
+          f = e.args[0]
+          oks = oks and f.op == 'ite' and is_ext_call(f.args[1], 'optax.MaskedNode') and f.args[2].op == 'leaf' and f.args[0].op == 'cmp' and \
+              f.args[0].args[0] == 'is' and is_const(f.args[0].args[2], None)
+        ok = okd and oks
+        why = 'member states must be collected in member order (zip(state, args), unconditionally), each from the same update call, with None leaves mapped to MaskedNode'
   ctx.ob('C15.T1', fc.short, 'chain threads updates through members in order', ok,
-         'sharded_chain.update must apply each member to the running updates with its own state, in argument order', ctx.loc(fc),
+         f'sharded_chain.update must apply each member to the running updates with its own state, in argument order: {why}; got `{show(r, maxdepth=5)[:200]}`', ctx.loc(fc),
          sample='for s, fn in zip(state, args): updates, new_s = fn.update(updates, s, params)')
-  src = ast.unparse(fin.node)
-  ctx.ob('C15.T1', fin.short, 'chain state = tuple of member states in order', 'tuple((fn.init(params) for fn in args))' in src,
-         'sharded_chain.init must return tuple(fn.init(params) for fn in args)', ctx.loc(fin), sample='tuple(fn.init(params) for fn in args)')
+  ri = evaluator(m).run(fin)
+  oki = ri.op in ('tuple', 'list') and len(ri.args) == 1 and ri.args[0].op == 'star'
+  if oki:
+    e, dom = ri.args[0].args
+    it = dom.args[0] if dom.op == 'compdom' and len(dom.args) == 1 else (dom.args[1] if dom.op == 'loopdom' and not dom.args[2] else None)
+    oki = it is ARGS and e.op == 'call' and method_name(e) == 'init' and e.args[0].args[0].op == 'elem' and e.args[0].args[0].args[0] is ARGS and \
+        len(e.args[1]) == 1 and e.args[1][0] is sym('param', fin.short, 'params')
+  ctx.ob('C15.T1', fin.short, 'chain state = tuple of member states in order', oki,
+         f'sharded_chain.init must return tuple(fn.init(params) for fn in args); got `{show(ri, maxdepth=5)[:160]}`', ctx.loc(fin), sample='tuple(fn.init(params) for fn in args)')
 
 
 def second_order(ctx):
